@@ -8,6 +8,9 @@ EXTENDS Integers, Sequences, FiniteSets, TLC, Rat, Defs, Json
 CONSTANTS TS, TE, MaxSp, MRTSQ     \* MRTSQ: set of numerators n, MRTS = n/4
 VARIABLES a, b, mrts, pc, i1, i2, nu1, nu2, ev, vals, path
 vars == <<a, b, mrts, pc, i1, i2, nu1, nu2, ev, vals, path>>
+Neg1 == -1
+Neg2 == -2
+Neg3 == -3
 Grid == TS..TE
 Trains == { SortedSeq(S) : S \in {Q \in SUBSET Grid : Cardinality(Q) <= MaxSp} }
 s1 == NonEmpty(a, TS, TE)
@@ -18,9 +21,15 @@ P(s, k) == s[k+1]                   \* 0-based access as in the code
 Val == IsiVal(nu1, nu2, mrts)
 ValP(n1, n2) == IsiVal(n1, n2, mrts)
 EndNu(s) == LET N == Len(s) IN IF N > 1 THEN Max2(TE-P(s,N-1), P(s,N-1)-P(s,N-2)) ELSE TE-P(s,N-1)
+\* Init fixes the first train only; Pick chooses the rest, so that TLC's workers share the
+\* enumeration (invariants of initial states are evaluated sequentially)
 Init ==
-   /\ a \in Trains /\ b \in Trains /\ mrts \in {Norm(n,4) : n \in MRTSQ}
-   /\ pc = "start" /\ i1 = 0 /\ i2 = 0 /\ nu1 = 0 /\ nu2 = 0 /\ ev = <<>> /\ vals = <<>> /\ path = <<>>
+   /\ a \in Trains /\ b = <<>> /\ mrts = Zero
+   /\ pc = "pick" /\ i1 = 0 /\ i2 = 0 /\ nu1 = 0 /\ nu2 = 0 /\ ev = <<>> /\ vals = <<>> /\ path = <<>>
+Pick ==
+   /\ pc = "pick"
+   /\ b' \in Trains /\ mrts' \in {Norm(n,4) : n \in MRTSQ}
+   /\ pc' = "start" /\ UNCHANGED <<a, i1, i2, nu1, nu2, ev, vals, path>>
 \* lines 30-46
 StartNu(s) == LET N == Len(s) IN
    IF P(s,0) > TS THEN (IF N > 1 THEN Max2(P(s,0)-TS, P(s,1)-P(s,0)) ELSE P(s,0)-TS)
@@ -67,17 +76,17 @@ Finish ==
       ELSE /\ ev' = Append(ev, TE) /\ vals' = vals /\ path' = Append(path, "close")
    /\ pc' = "done"
    /\ UNCHANGED <<a, b, mrts, i1, i2, nu1, nu2>>
-Next == Start \/ Adv1 \/ Adv2 \/ AdvBoth \/ Finish
+Next == Pick \/ Start \/ Adv1 \/ Adv2 \/ AdvBoth \/ Finish
 Spec == Init /\ [][Next]_vars
 ----------------------------------------------------------------------------
 Def == IsiDef(a, b, TS, TE, mrts)
 Correct == pc = "done" => (ev = Def.x /\ vals = Def.y)
 InRange == \A k \in 1..Len(vals) : RInUnit(vals[k])
-CursorBounds == pc # "start" => (-1 <= i1 /\ i1 <= N1-1 /\ -1 <= i2 /\ i2 <= N2-1)
+CursorBounds == pc \in {"loop", "done"} => (-1 <= i1 /\ i1 <= N1-1 /\ -1 <= i2 /\ i2 <= N2-1)
 \* a zero interval length can only occur in the zero-length last piece that Finish trims
 NuPositive == (pc = "loop" /\ Last(ev) < TE) => (nu1 > 0 /\ nu2 > 0)
 \* the scan terminates: every non-final state has a successor
-Terminates == pc # "done" => ENABLED Next
+Terminates == pc \notin {"done", "pick"} => ENABLED Next
 \* definition-level facts used by C07 / C15 (checked on the same enumeration)
 Symmetric == pc = "start" => IsiDef(b, a, TS, TE, mrts) = Def
 Identity == pc = "start" => \A k \in 1..Len(IsiDef(a, a, TS, TE, mrts).y) : IsiDef(a, a, TS, TE, mrts).y[k] = Zero
